@@ -47,7 +47,10 @@ class IOHooks(Hooks):
         rets_props = PROPS_RECORD in callee.ret
         takes_props = any(PROPS_RECORD in p["t"] for p in callee.params)
         if rets_props or takes_props:
-            return False           # section primitives
+            # section primitives -- but a file-local helper of the reader / writer layer that passes a section on (fills in common
+            # properties, prints and releases it) is part of its caller
+            return bool(callee.get("static")) and not callee.get("record") and callee.file == ex.fn.file and \
+                not callee.file.endswith("tfhe_generic_streams.cpp") and ex.depth < 6
         if has_stream_param(callee):
             return True
         if self.deep and callee.file.startswith(("libtfhe/", "include/")):
@@ -75,6 +78,11 @@ class IOHooks(Hooks):
                 kind = m[len("getProperty"):].lstrip("_") or "string"
                 key = args[0][1] if args and args[0] is not None and args[0][0] == "str" else sym.show(args[0])
                 return ("prop", this, key, kind)
+        if name.endswith("::compare") and name.startswith("std::basic_string") and len(args) == 1 and args[0] is not None and this is not None:
+            # title.compare("S") is non-zero exactly when the title differs from "S": the value of  title != "S"
+            tt = next((st for st in sym.subterms(this) if st[0] == "title"), None)
+            if tt is not None and args[0][0] == "str":
+                return ("call", "operator!=", (tt, args[0]))
         return None
 
 
@@ -137,12 +145,13 @@ def _staged_writes(staged, ptr, size, line):
     return out
 
 
-def extract_ops(effects, direction, unstage=False):
+def extract_ops(effects, direction, unstage=False, _shared=None):
     """effect tree -> op tree.  unstage (reader views): statements that copy out of a heap / local buffer (`lv = buf[e]`,
     memcpy(dst, buf + e, n)) become pseudo-ops {"op": "unstage"}; the consumer pairs them with the read that filled the buffer."""
     ops = []
-    sections = {}   # props object term -> op dict
-    staged = {}     # private staging buffer -> [(byte offset, byte length, source pointer)]
+    # (a section object / staging buffer handed to an inlined helper is the caller's: one table for the whole function)
+    sections, staged = _shared if _shared is not None else ({}, {})
+    # sections: props object term -> op dict;  staged: private staging buffer -> [(byte offset, byte length, source pointer)]
     for x in effects:
         e = x["e"]
         if unstage and e == "store" and x["op"] == "=" and isinstance(x.get("val"), tuple):
@@ -222,7 +231,7 @@ def extract_ops(effects, direction, unstage=False):
                 sections[obj] = sec
                 ops.append(sec)
         elif e == "inlined":
-            sub = extract_ops(x["body"], direction, unstage)
+            sub = extract_ops(x["body"], direction, unstage, _shared=(sections, staged))
             ops.extend(sub)
         elif e == "loop" and not unstage and _staging_fill(x) is not None:
             sr, seg = _staging_fill(x)
